@@ -97,6 +97,7 @@ class iCE40PLL(LiteXModule):
     def do_finalize(self):
         config = self.compute_config()
         clkfb = Signal()
+        filter_range = 6 # PFD frequencies of 101MHz and above (up to and including the 133MHz maximum).
         for f, v in [(17e6, 1), (26e6, 2), (44e6, 3), (66e6, 4), (101e6, 5), (133e6, 6)]:
             pfd_freq = self.clkin_freq/(config["divr"] + 1)
             if pfd_freq < f:
